@@ -66,7 +66,7 @@ def build_all(need_props=(), allow_default=True) -> BuildResult:
             if allow_default:
                 # fall back, per untranslatable section, to the model parameters of the last
                 # recognised source so the correspondence lanes can still say whether behaviour changed
-                files = {"dispatch": "DispatchSrc.v", "converters": "ConvSrc.v", "gen": "GenSrc.v"}
+                files = {"dispatch": "DispatchSrc.v", "converters": "ConvSrc.v", "gen": "GenSrc.v", "unions": "UnionsSrc.v"}
                 default = json.loads((COQ / "GenDefault" / "t1_summary.json").read_text())
                 for sec, fname in files.items():
                     if not summ.get("sections", {}).get(sec, False):
@@ -74,8 +74,7 @@ def build_all(need_props=(), allow_default=True) -> BuildResult:
                         tgt = gen / fname
                         if not tgt.exists() or tgt.read_text() != f.read_text():
                             tgt.write_text(f.read_text())
-                        key = {"dispatch": "dispatch", "converters": "converters", "gen": "gen"}[sec]
-                        summ[key] = default.get(key)
+                        summ[sec] = default.get(sec)
                 res.used_default_gen = True
         rc, out = sh([str(COQ / "build.sh")], timeout=3000, cwd=str(COQ))
         res.coq_log = out
